@@ -155,6 +155,27 @@ fn emergency_violation(dir: &Path, prop: u8, tier: &str, seed: i64, spec_json: &
     std::process::exit(1);
 }
 
+/// "builds promptly": a build() that runs for more than FGV_BUILD_LIMIT_S (default 20 s; the
+/// repaired tree needs milliseconds for every enumerated input) is reported by C18 even if the
+/// pop counter is never reached; other builder-side checks stop with exit 2 instead of hanging.
+fn spawn_build_watchdog(is_c18: bool, id: u8, tier: &str, seed: i64, dir: &Path) {
+    let limit = std::time::Duration::from_secs(std::env::var("FGV_BUILD_LIMIT_S").ok().and_then(|s| s.parse().ok()).unwrap_or(20));
+    let dir2 = dir.to_path_buf();
+    let tier2 = tier.to_string();
+    std::thread::spawn(move || loop {
+        std::thread::sleep(std::time::Duration::from_millis(250));
+        if let Some((spec_json, secs)) = props_build::watch_overdue(limit) {
+            if is_c18 {
+                emergency_violation(&dir2, 18, &tier2, seed, &spec_json, &format!("build() still running after {secs:.0} s (limit {} s)", limit.as_secs()), None);
+            } else {
+                let spec: graphs::Spec = serde_json::from_str(&spec_json).unwrap_or(graphs::Spec { n: 0, edges: vec![], decl: vec![] });
+                eprintln!("MACHINERY: build() has been running for {secs:.0} s on {} - C18 reports this, check C{id:02} cannot continue", spec.short());
+                std::process::exit(2);
+            }
+        }
+    });
+}
+
 fn check(id: u8, tier: &str) -> i32 {
     let t0 = Instant::now();
     let deadline = deadline_for(tier);
@@ -199,6 +220,7 @@ fn check(id: u8, tier: &str) -> i32 {
                 _ => props_run::c10(tier),
             };
             if id == 6 {
+                spawn_build_watchdog(false, id, tier, seed, &dir);
                 props_build::run_build_props(6, tier, deadline, &mut st, &mut log);
             }
             if id == 4 {
@@ -212,21 +234,13 @@ fn check(id: u8, tier: &str) -> i32 {
             }
         }
         18 => {
-            // "builds promptly": a build that runs for more than FGV_BUILD_LIMIT_S (default 20 s;
-            // the repaired tree needs milliseconds) is reported even if the pop counter is never
-            // reached, and the process exits instead of hanging.
-            let limit = std::time::Duration::from_secs(std::env::var("FGV_BUILD_LIMIT_S").ok().and_then(|s| s.parse().ok()).unwrap_or(20));
-            let dir2 = dir.clone();
-            let tier2 = tier.to_string();
-            std::thread::spawn(move || loop {
-                std::thread::sleep(std::time::Duration::from_millis(250));
-                if let Some((spec_json, secs)) = props_build::watch_overdue(limit) {
-                    emergency_violation(&dir2, 18, &tier2, seed, &spec_json, &format!("build() still running after {secs:.0} s (limit {} s)", limit.as_secs()), None);
-                }
-            });
+            spawn_build_watchdog(true, id, tier, seed, &dir);
             props_build::run_build_props(id, tier, deadline, &mut st, &mut log)
         }
-        11 | 12 | 13 | 14 | 17 => props_build::run_build_props(id, tier, deadline, &mut st, &mut log),
+        11 | 12 | 13 | 14 | 17 => {
+            spawn_build_watchdog(false, id, tier, seed, &dir);
+            props_build::run_build_props(id, tier, deadline, &mut st, &mut log)
+        }
         16 => props_build::run_c16(tier, deadline, &mut st, &mut log),
         15 => props_hist::run_c15(tier, deadline, &mut st, &mut log),
         20 => props_hist::run_c20(tier, deadline, &mut st, &mut log),
